@@ -1,5 +1,5 @@
 // InnerProductArgPC::{combine_shifted_comm, construct_labeled_commitments, check_combinations} (ipa_pc/mod.rs): the linear-combination verifier of the IPA scheme  (C06)
-//@use core ops_gen poly labeled_comm sponge std
+//@use core ops_gen poly labeled labeled_comm sponge std
 //@spec ring
 //@typemap /<G>/ =>
 //@typemap /G::Group::/ => G1::
@@ -18,6 +18,9 @@
 //@struct file=poly-commit/src/data_structures.rs name=LinearCombination
 //@typemap /: G,/ => : G1Affine,
 //@struct file=poly-commit/src/ipa_pc/data_structures.rs name=Commitment
+//@typemap /Option<G::ScalarField>/ => Option<Fr>
+//@typemap /: G::ScalarField,/ => : Fr,
+//@struct file=poly-commit/src/ipa_pc/data_structures.rs name=Randomness
 // the scheme's key, point and batch-proof types stay abstract: this method only hands them on
 #[verifier::external_body] pub struct VK { _x: u8 }
 #[verifier::external_body] pub struct Pt { _x: u8 }
@@ -72,6 +75,22 @@ pub proof fn lemma_need_mono(info: Seq<(String, Option<usize>)>, a: int, b: int)
     ensures need(info, a) <= need(info, b)
     decreases b
 { if a < b { lemma_need_mono(info, a, b - 1); } }
+pub proof fn lemma_outs_push(info0: Seq<(String, Option<usize>)>, cms0: Seq<G1>, x: (String, Option<usize>), c: G1, sc: Option<G1>, info: Seq<(String, Option<usize>)>, els: Seq<G1>)
+    requires need(info0, info0.len() as int) == cms0.len(), (x.1 is Some) == (sc is Some), info == info0.push(x),
+        els == (if sc is Some { cms0.push(c).push(sc->Some_0) } else { cms0.push(c) })
+    ensures need(info, info.len() as int) == els.len(), outs(info, els).len() == info0.len() + 1,
+        forall|q: int| 0 <= q < info0.len() ==> #[trigger] outs(info, els)[q] == outs(info0, cms0)[q],
+        outs(info, els)[info0.len() as int] == (x.0, c@, gview(sc), x.1)
+{
+    let i = info0.len() as int;
+    assert forall|q: int| 0 <= q <= i implies need(info, q) == need(info0, q) by { lemma_need_prefix(info0, x, q); }
+    assert forall|q: int| 0 <= q < i implies #[trigger] outs(info, els)[q] == outs(info0, cms0)[q] by {
+        lemma_need_mono(info0, q + 1, i);
+        assert(info[q] == info0[q]);
+        assert(els[need(info0, q)] == cms0[need(info0, q)]);
+        if info0[q].1 is Some { assert(els[need(info0, q) + 1] == cms0[need(info0, q) + 1]); }
+    }
+}
 // the polynomial terms of one combination (first k terms): sum_i c_i C_i, sum_i c_i S_i and the degree bound the combination keeps; None = refused
 pub open spec fn iscan(m: Map<&String, &LabeledCommitment<Commitment>>, ts: Seq<(Fr, LCTerm)>, k: nat) -> Option<(FS, Option<FS>, Option<usize>)> decreases k {
     if k == 0 { Some((f_zero(), None, None)) } else {
@@ -115,6 +134,144 @@ pub proof fn lemma_irun_none(m: Map<&String, &LabeledCommitment<Commitment>>, lc
     ensures irun(m, lcs, n) is None
     decreases n
 { if k < n { lemma_irun_none(m, lcs, k, (n - 1) as nat); } }
+// ---- prover side: the scheme's commitment state (randomness) and batch_open, abstract ----
+#[verifier::external_body] pub struct CK { _x: u8 }
+pub type St = Randomness;
+#[verifier::external_body] pub fn opt_usize_max(a: Option<usize>, b: Option<usize>) -> (r: Option<usize>)     // core::cmp::max on Option<usize>: Some(_) > None
+    ensures r == omax(a, b) { unimplemented!() }
+pub open spec fn omax(a: Option<usize>, b: Option<usize>) -> Option<usize> { match (a, b) { (None, _) => b, (_, None) => a, (Some(x), Some(y)) => if x >= y { a } else { b } } }
+pub uninterp spec fn bo_res(ck: &CK, ps: Seq<LabeledPolynomial>, cs: Seq<(String, FS, Option<FS>, Option<usize>)>, qs: Set<(String, (String, Pt))>, sts: Seq<St>, s: SS, rng: Option<(int, nat)>) -> Result<BatchProof, Error>;
+pub uninterp spec fn bo_sponge(ck: &CK, ps: Seq<LabeledPolynomial>, cs: Seq<(String, FS, Option<FS>, Option<usize>)>, qs: Set<(String, (String, Pt))>, sts: Seq<St>, s: SS, rng: Option<(int, nat)>) -> SS;
+pub open spec fn rng_in(r: Option<&mut Rng>) -> Option<(int, nat)> { match r { Some(g) => Some((g.id@, g.pos@)), None => None } }
+#[verifier::external_body]
+pub fn pc_batch_open(ck: &CK, polys: &Vec<LabeledPolynomial>, comms: &Vec<LabeledCommitment<Commitment>>, query_set: &BTreeSet<(String, (String, Pt))>, sponge: &mut Sponge, states: &Vec<St>, rng: Option<&mut Rng>) -> (res: Result<BatchProof, Error>)
+    ensures res == bo_res(ck, polys@, lcvs(comms@), query_set@, states@, old(sponge).st@, rng_in(rng)),
+        final(sponge).st@ == bo_sponge(ck, polys@, lcvs(comms@), query_set@, states@, old(sponge).st@, rng_in(rng)) { unimplemented!() }
+#[verifier::external_body] pub fn tmap_get<'b, 'a>(m: &'b BTreeMap<&'a String, (&'a LabeledPolynomial, &'a St, &'a LabeledCommitment<Comm>)>, k: &String) -> (r: Option<&'b (&'a LabeledPolynomial, &'a St, &'a LabeledCommitment<Comm>)>)
+    ensures (r is Some) == m@.dom().contains(k), r is Some ==> *r->Some_0 == m@[k] { unimplemented!() }
+// every polynomial carries a degree bound exactly when its commitment has a shifted part (otherwise the flat element list falls out of step)
+pub open spec fn wf_pairs(ps: Seq<&LabeledPolynomial>, cs: Seq<&LabeledCommitment<Commitment>>) -> bool { forall|i: int| 0 <= i < ps.len() && i < cs.len() ==> ((#[trigger] ps[i]).degree_bound is Some) == (cs[i].commitment.shifted_comm is Some) }
+// polynomial / state / commitment triples by label: the last one wins
+pub open spec fn t_is_last(ps: Seq<&LabeledPolynomial>, i: int) -> bool { 0 <= i < ps.len() && forall|j: int| i < j < ps.len() ==> (#[trigger] ps[j]).label != ps[i].label }
+pub open spec fn tmap_ok(m: Map<&String, (&LabeledPolynomial, &St, &LabeledCommitment<Comm>)>, ps: Seq<&LabeledPolynomial>, sts: Seq<&St>, cs: Seq<&LabeledCommitment<Comm>>) -> bool {
+    let n = min(min(ps.len(), sts.len()), cs.len());
+    (forall|k: &String| m.dom().contains(k) == (exists|i: int| 0 <= i < n && (#[trigger] ps[i]).label == *k))
+    && (forall|i: int| #[trigger] t_is_last(ps.subrange(0, n as int), i) ==> m[&ps[i].label] == (ps[i], sts[i], cs[i]))
+}
+// prover-side scan of the polynomial terms of one combination (first k terms): value of sum_i c_i p_i at x, the combined state, the combined commitment, the kept degree bound (decided on the POLYNOMIAL's bound) and the largest hiding bound
+pub open spec fn p_ok(m: Map<&String, (&LabeledPolynomial, &St, &LabeledCommitment<Comm>)>, ts: Seq<(Fr, LCTerm)>, k: nat) -> bool decreases k {
+    if k == 0 { true } else { p_ok(m, ts, (k - 1) as nat) && match ts[k - 1].1 {
+        LCTerm::One => true,
+        LCTerm::PolyLabel(l) => m.dom().contains(&l) && (m[&l].0.degree_bound is Some ==> ts.len() == 1 && ts[k - 1].0@ == f_one()),
+    } }
+}
+pub open spec fn p_ev(m: Map<&String, (&LabeledPolynomial, &St, &LabeledCommitment<Comm>)>, ts: Seq<(Fr, LCTerm)>, k: nat, x: FS) -> FS decreases k {
+    if k == 0 { f_zero() } else { match ts[k - 1].1 { LCTerm::One => p_ev(m, ts, (k - 1) as nat, x), LCTerm::PolyLabel(l) => f_add(p_ev(m, ts, (k - 1) as nat, x), f_mul(ts[k - 1].0@, m[&l].0.polynomial.ev(x))) } }
+}
+pub open spec fn fview(c: Option<Fr>) -> Option<FS> { match c { Some(g) => Some(g@), None => None } }
+pub open spec fn p_rand(m: Map<&String, (&LabeledPolynomial, &St, &LabeledCommitment<Comm>)>, ts: Seq<(Fr, LCTerm)>, k: nat) -> FS decreases k {
+    if k == 0 { f_zero() } else { match ts[k - 1].1 { LCTerm::One => p_rand(m, ts, (k - 1) as nat), LCTerm::PolyLabel(l) => f_add(p_rand(m, ts, (k - 1) as nat), f_mul(m[&l].1.rand@, ts[k - 1].0@)) } }
+}
+pub open spec fn p_srand(m: Map<&String, (&LabeledPolynomial, &St, &LabeledCommitment<Comm>)>, ts: Seq<(Fr, LCTerm)>, k: nat) -> Option<FS> decreases k {
+    if k == 0 { None } else { match ts[k - 1].1 { LCTerm::One => p_srand(m, ts, (k - 1) as nat), LCTerm::PolyLabel(l) => shf(p_srand(m, ts, (k - 1) as nat), fview(m[&l].1.shifted_rand), ts[k - 1].0@) } }
+}
+pub open spec fn p_scm(m: Map<&String, (&LabeledPolynomial, &St, &LabeledCommitment<Comm>)>, ts: Seq<(Fr, LCTerm)>, k: nat) -> Option<FS> decreases k {
+    if k == 0 { None } else { match ts[k - 1].1 { LCTerm::One => p_scm(m, ts, (k - 1) as nat), LCTerm::PolyLabel(l) => shf(p_scm(m, ts, (k - 1) as nat), aview(m[&l].2.commitment.shifted_comm), ts[k - 1].0@) } }
+}
+pub open spec fn p_cm(m: Map<&String, (&LabeledPolynomial, &St, &LabeledCommitment<Comm>)>, ts: Seq<(Fr, LCTerm)>, k: nat) -> FS decreases k {
+    if k == 0 { f_zero() } else { match ts[k - 1].1 { LCTerm::One => p_cm(m, ts, (k - 1) as nat),
+        LCTerm::PolyLabel(l) => f_add(p_cm(m, ts, (k - 1) as nat), f_mul(m[&l].2.commitment.comm@, ts[k - 1].0@)) } }
+}
+pub open spec fn p_db(m: Map<&String, (&LabeledPolynomial, &St, &LabeledCommitment<Comm>)>, ts: Seq<(Fr, LCTerm)>, k: nat) -> Option<usize> decreases k {
+    if k == 0 { None } else { match ts[k - 1].1 { LCTerm::One => p_db(m, ts, (k - 1) as nat), LCTerm::PolyLabel(l) => if m[&l].0.degree_bound is Some { m[&l].0.degree_bound } else { p_db(m, ts, (k - 1) as nat) } } }
+}
+pub open spec fn p_hb(m: Map<&String, (&LabeledPolynomial, &St, &LabeledCommitment<Comm>)>, ts: Seq<(Fr, LCTerm)>, k: nat) -> Option<usize> decreases k {
+    if k == 0 { None } else { match ts[k - 1].1 { LCTerm::One => p_hb(m, ts, (k - 1) as nat), LCTerm::PolyLabel(l) => omax(p_hb(m, ts, (k - 1) as nat), m[&l].0.hiding_bound) } }
+}
+pub open spec fn p_all_ok(m: Map<&String, (&LabeledPolynomial, &St, &LabeledCommitment<Comm>)>, lcs: Seq<&LinearCombination>, n: nat) -> bool decreases n {
+    if n == 0 { true } else { p_all_ok(m, lcs, (n - 1) as nat) && p_ok(m, lcs[n - 1].terms@, lcs[n - 1].terms@.len()) }
+}
+// what is handed to the scheme's batch_open for combination i
+pub open spec fn lc_opened(m: Map<&String, (&LabeledPolynomial, &St, &LabeledCommitment<Comm>)>, lc: &LinearCombination, p: LabeledPolynomial, st: St, c: (String, FS, Option<FS>, Option<usize>)) -> bool {
+    let ts = lc.terms@; let n = ts.len();
+    p.label == lc.label && (forall|x: FS| #[trigger] p.polynomial.ev(x) == p_ev(m, ts, n, x)) && p.degree_bound == p_db(m, ts, n) && p.hiding_bound == p_hb(m, ts, n)
+    && st.rand@ == p_rand(m, ts, n) && fview(st.shifted_rand) == p_srand(m, ts, n)
+    && c == (lc.label, p_cm(m, ts, n), p_scm(m, ts, n), p_db(m, ts, n))
+}
+pub open spec fn ioc_post(ck: &CK, lcs: Seq<&LinearCombination>, ps: Seq<&LabeledPolynomial>, cs: Seq<&LabeledCommitment<Commitment>>, qs: Set<(String, (String, Pt))>, sts: Seq<&St>, s0: SS, rng: Option<(int, nat)>, res: Result<BatchLCProof, Error>, s1: SS) -> bool {
+    exists|m: Map<&String, (&LabeledPolynomial, &St, &LabeledCommitment<Comm>)>| #![trigger tmap_ok(m, ps, sts, cs)] tmap_ok(m, ps, sts, cs) && (
+        if !p_all_ok(m, lcs, lcs.len()) { res is Err } else {
+            exists|lps: Seq<LabeledPolynomial>, lsts: Seq<St>, lcms: Seq<(String, FS, Option<FS>, Option<usize>)>| #![trigger bo_res(ck, lps, lcms, qs, lsts, s0, rng)]
+                lps.len() == lcs.len() && lsts.len() == lcs.len() && lcms.len() == lcs.len()
+                && (forall|i: int| 0 <= i < lcs.len() ==> lc_opened(m, #[trigger] lcs[i], lps[i], lsts[i], lcms[i]))
+                && s1 == bo_sponge(ck, lps, lcms, qs, lsts, s0, rng)
+                && match bo_res(ck, lps, lcms, qs, lsts, s0, rng) { Err(_) => res is Err, Ok(bp) => res is Ok && res->Ok_0.proof == bp && res->Ok_0.evals is None }
+        })
+}
+pub proof fn lemma_p_ok_false(m: Map<&String, (&LabeledPolynomial, &St, &LabeledCommitment<Comm>)>, ts: Seq<(Fr, LCTerm)>, k: nat, n: nat)
+    requires k <= n, !p_ok(m, ts, k)
+    ensures !p_ok(m, ts, n)
+    decreases n
+{ if k < n { lemma_p_ok_false(m, ts, k, (n - 1) as nat); } }
+pub proof fn lemma_p_all_false(m: Map<&String, (&LabeledPolynomial, &St, &LabeledCommitment<Comm>)>, lcs: Seq<&LinearCombination>, k: nat, n: nat)
+    requires k <= n, !p_all_ok(m, lcs, k)
+    ensures !p_all_ok(m, lcs, n)
+    decreases n
+{ if k < n { lemma_p_all_false(m, lcs, k, (n - 1) as nat); } }
+pub proof fn lemma_last_poly(ps: Seq<&LabeledPolynomial>, l: String, lo: int, n: int) -> (i: int)
+    requires 0 <= lo < n <= ps.len(), ps[lo].label == l
+    ensures lo <= i < n, ps[i].label == l, forall|j: int| i < j < n ==> (#[trigger] ps[j]).label != l
+    decreases n - lo
+{
+    if forall|j: int| lo < j < n ==> (#[trigger] ps[j]).label != l { lo }
+    else { let j = choose|j: int| lo < j < n && (#[trigger] ps[j]).label == l; lemma_last_poly(ps, l, j, n) }
+}
+pub proof fn lemma_tmap_entry(m: Map<&String, (&LabeledPolynomial, &St, &LabeledCommitment<Comm>)>, ps: Seq<&LabeledPolynomial>, sts: Seq<&St>, cs: Seq<&LabeledCommitment<Comm>>, k: &String) -> (i: int)
+    requires tmap_ok(m, ps, sts, cs), m.dom().contains(k)
+    ensures 0 <= i < ps.len(), i < sts.len(), i < cs.len(), m[k] == (ps[i], sts[i], cs[i])
+{
+    let n = min(min(ps.len(), sts.len()), cs.len());
+    let i0 = choose|i: int| 0 <= i < n && (#[trigger] ps[i]).label == *k;
+    let i = lemma_last_poly(ps, *k, i0, n as int);
+    let sub = ps.subrange(0, n as int);
+    assert forall|j: int| i < j < sub.len() implies (#[trigger] sub[j]).label != sub[i].label by { assert(sub[j] == ps[j]); }
+    assert(t_is_last(sub, i));
+    assert(m[&ps[i].label] == (ps[i], sts[i], cs[i]));
+    i
+}
+//@lemma props=C06
+// C06, IPA, lock-step of prover and verifier: when both sides hold the same commitments under the same labels and the polynomials
+// carry the degree bounds their commitments are labelled with, the commitments check_combinations forms are exactly the ones
+// open_combinations handed to batch_open together with sum_i c_i p_i and sum_i c_i r_i - and whatever the prover accepts, the verifier does not refuse
+pub open spec fn maps_agree(tm: Map<&String, (&LabeledPolynomial, &St, &LabeledCommitment<Comm>)>, m: Map<&String, &LabeledCommitment<Commitment>>) -> bool {
+    (forall|k: &String| tm.dom().contains(k) == m.dom().contains(k))
+    && (forall|k: &String| #[trigger] tm.dom().contains(k) ==> tm[k].2 == m[k] && tm[k].0.degree_bound == m[k].degree_bound)
+}
+pub proof fn lemma_iscan_lockstep(tm: Map<&String, (&LabeledPolynomial, &St, &LabeledCommitment<Comm>)>, m: Map<&String, &LabeledCommitment<Commitment>>, ts: Seq<(Fr, LCTerm)>, k: nat)
+    requires maps_agree(tm, m), p_ok(tm, ts, k), k <= ts.len()
+    ensures iscan(m, ts, k) == Some((p_cm(tm, ts, k), p_scm(tm, ts, k), p_db(tm, ts, k)))
+    decreases k
+{
+    if k > 0 {
+        lemma_iscan_lockstep(tm, m, ts, (k - 1) as nat);
+        match ts[k - 1].1 { LCTerm::One => {}, LCTerm::PolyLabel(l) => { assert(tm.dom().contains(&l)); } }
+    }
+}
+pub proof fn lemma_ipa_lc_lockstep(tm: Map<&String, (&LabeledPolynomial, &St, &LabeledCommitment<Comm>)>, m: Map<&String, &LabeledCommitment<Commitment>>, lcs: Seq<&LinearCombination>, n: nat)
+    requires maps_agree(tm, m), p_all_ok(tm, lcs, n), n <= lcs.len()
+    ensures
+        irun(m, lcs, n) is Some, irun(m, lcs, n)->Some_0.len() == n,      // name=ipa.combinations.verifier_does_not_refuse_what_the_prover_opened props=C06
+        forall|i: int| 0 <= i < n ==> (#[trigger] irun(m, lcs, n)->Some_0[i]) == ({ let ts = lcs[i].terms@; (lcs[i].label, p_cm(tm, ts, ts.len()), p_scm(tm, ts, ts.len()), p_db(tm, ts, ts.len())) }),   // name=ipa.combinations.verifier_forms_the_commitments_the_prover_opened props=C06
+    decreases n
+{
+    if n > 0 {
+        lemma_ipa_lc_lockstep(tm, m, lcs, (n - 1) as nat);
+        let ts = lcs[n - 1].terms@;
+        lemma_iscan_lockstep(tm, m, ts, ts.len());
+        let prev = irun(m, lcs, (n - 1) as nat)->Some_0;
+        assert forall|i: int| 0 <= i < n implies (#[trigger] irun(m, lcs, n)->Some_0[i]) == ({ let ts = lcs[i].terms@; (lcs[i].label, p_cm(tm, ts, ts.len()), p_scm(tm, ts, ts.len()), p_db(tm, ts, ts.len())) }) by { if i < n - 1 { assert(irun(m, lcs, n)->Some_0[i] == prev[i]); } }
+    }
+}
 pub struct InnerProductArgPC;
 impl InnerProductArgPC {
 //@fn id=ipa.combine_shifted_comm file=poly-commit/src/ipa_pc/mod.rs scope="impl<G, D, P> InnerProductArgPC<G, D, P>" name=combine_shifted_comm props=C06,C04
@@ -277,17 +434,8 @@ impl InnerProductArgPC {
 //@loopend 1
             proof {
                 let info = lc_info@; let els = lc_commitments@; let x = (lc_label, degree_bound);
-                assert(info == info0.push(x));
-                assert forall|q: int| 0 <= q <= i implies need(info, q) == need(info0, q) by { lemma_need_prefix(info0, x, q); }
-                assert(need(info, i + 1) == els.len());
-                assert(outs(info, els) =~= out0.push((lcs0[i].label, combined_comm@, gview(combined_shifted_comm), degree_bound))) by {
-                    assert forall|q: int| 0 <= q < i implies outs(info, els)[q] == out0[q] by {
-                        lemma_need_mono(info0, q + 1, i);
-                        assert(info[q] == info0[q]);
-                        assert(els[need(info0, q)] == cms0[need(info0, q)]);
-                        if info0[q].1 is Some { assert(els[need(info0, q) + 1] == cms0[need(info0, q) + 1]); }
-                    }
-                }
+                lemma_outs_push(info0, cms0, x, combined_comm, combined_shifted_comm, info, els);
+                assert(outs(info, els) =~= out0.push((lcs0[i].label, combined_comm@, gview(combined_shifted_comm), degree_bound)));
                 assert forall|k: (String, Pt)| ev0.dom().contains(k) implies (#[trigger] evaluations@[k])@ == f_sub(ev0[k]@, adj(lcs0, k.0, (i + 1) as nat)) by { assert(evaluations@[k]@ == f_sub(ev0[k]@, tot(lcs0, k.0, i as nat, lc_label, lc_const(ts, ts.len())))); }
             }
 //@before /Self::batch_check\(/
@@ -296,6 +444,127 @@ impl InnerProductArgPC {
             let out = outs(lc_info0, lc_comms0);
             assert(lcvs(lc_commitments@) =~= out);
             assert(evaluations@ =~= adj_ev(ev0, lcs0, n));
+        }
+//@end
+//@fn id=ipa.combine_shifted_rand file=poly-commit/src/ipa_pc/mod.rs scope="impl<G, D, P> InnerProductArgPC<G, D, P>" name=combine_shifted_rand props=C06,C07
+    fn combine_shifted_rand(combined_rand: Option<Fr>, new_rand: Option<Fr>, coeff: Fr) -> (r: Option<Fr>)
+    ensures
+        fview(r) == shf(fview(combined_rand), fview(new_rand), coeff@),   // name=ipa.combine_shifted_rand.adds_the_scaled_shifted_randomness props=C06,C07
+//@body
+//@rw 1 /combined_rand\.map_or\(coeff_new_rand, /=> opt_map_or(combined_rand, coeff_new_rand, 
+//@closure |r| => |r: Fr| -> (o: Fr) ensures o@ == f_add(r@, coeff_new_rand@)
+//@end
+//@fn id=ipa.open_combinations file=poly-commit/src/ipa_pc/mod.rs scope="impl<G, D, P> PolynomialCommitment<G::ScalarField, P> for InnerProductArgPC<G, D, P>" name=open_combinations props=C06,C04,C17
+    #[verifier::loop_isolation(false)]
+    fn open_combinations<'a>(ck: &CK, linear_combinations: Vec<&'a LinearCombination>, polynomials: Vec<&'a LabeledPolynomial>, commitments: Vec<&'a LabeledCommitment<Commitment>>, query_set: &BTreeSet<(String, (String, Pt))>, sponge: &mut Sponge, states: Vec<&'a St>, rng: Option<&mut Rng>) -> (res: Result<BatchLCProof, Error>)
+    requires
+        wf_pairs(polynomials@, commitments@),
+    ensures
+        // for every combination the polynomial sum_i c_i p_i (constants left out: the verifier moves them to the claimed values), the
+        // state sum_i c_i r_i and the commitments sum_i c_i C_i and sum_i c_i S_i (with the kept bound) are handed to the scheme's
+        // batch_open; a combination naming an unknown polynomial or mixing a degree-bounded polynomial with other terms is refused
+        ioc_post(ck, linear_combinations@, polynomials@, commitments@, query_set@, states@, old(sponge).st@, rng_in(rng), res, final(sponge).st@),   // name=ipa.open_combinations.batch_opening_of_the_combined_polynomials props=C06,C04,C17
+//@body
+//@rw 1 /(?s)let label_poly_map = (polynomials\s*\.into_iter\(\).*?)\s*\.collect::<BTreeMap<_, _>>\(\);/ => let tv__: Vec<(&String, (&LabeledPolynomial, &St, &LabeledCommitment<Comm>))> = \1.collect();
+        let label_poly_map: BTreeMap<&String, (&LabeledPolynomial, &St, &LabeledCommitment<Comm>)> = btree_from_pairs(tv__);
+        proof {
+            let nn = min(min(ps0.len(), sts0.len()), cs0.len());
+            assert(tv__@.len() == nn);
+            assert forall|i: int| #[trigger] t_is_last(ps0.subrange(0, nn as int), i) implies label_poly_map@[&ps0[i].label] == (ps0[i], sts0[i], cs0[i]) by {
+                assert(tv__@[i].0 == &ps0[i].label);
+                assert forall|j: int| i < j < tv__@.len() implies tv__@[j].0 != tv__@[i].0 by { assert(*tv__@[j].0 == ps0.subrange(0, nn as int)[j].label); }
+            }
+            assert forall|k: &String| label_poly_map@.dom().contains(k) == (exists|i: int| 0 <= i < nn && (#[trigger] ps0[i]).label == *k) by {
+                if label_poly_map@.dom().contains(k) { let i = choose|i: int| 0 <= i < tv__@.len() && (#[trigger] tv__@[i]).0 == k; assert(ps0[i].label == *k); }
+                if exists|i: int| 0 <= i < nn && (#[trigger] ps0[i]).label == *k { let i = choose|i: int| 0 <= i < nn && (#[trigger] ps0[i]).label == *k; assert(tv__@[i].0 == k); }
+            }
+            assert(tmap_ok(label_poly_map@, ps0, sts0, cs0));
+        }
+//@closure |((p, s), c)| => |t: ((&'a LabeledPolynomial, &'a St), &'a LabeledCommitment<Comm>)| -> (kv: (&String, (&LabeledPolynomial, &St, &LabeledCommitment<Comm>))) ensures *kv.0 == t.0.0.label, kv.1 == (t.0.0, t.0.1, t.1) ;; let ((p, s), c) = t;
+//@rw 1 /let mut lc_polynomials = Vec::new\(\);/ => let mut lc_polynomials: Vec<LabeledPolynomial> = Vec::new();
+//@rw 1 /let mut lc_states = Vec::new\(\);/ => let mut lc_states: Vec<St> = Vec::new();
+//@rw 1 /let mut lc_commitments = Vec::new\(\);/ => let mut lc_commitments: Vec<G1> = Vec::new();
+//@rw 1 /let mut lc_info = Vec::new\(\);/ => let mut lc_info: Vec<(String, Option<usize>)> = Vec::new();
+//@rw 1 /for lc in([^{]*?)linear_combinations([^{]*)\{/ => for lc__r in\1linear_combinations.iter()\2{ let lc: &LinearCombination = *lc__r;
+//@rw 1 /let lc_label = lc\.label\(\)\.clone\(\);/ => let lc_label = string_to_string(lc.label());
+//@rw 1 /lc_label\.clone\(\)/ => string_to_string(&lc_label)
+//@rw 1 /let mut poly = P::zero\(\);/ => let mut poly = Poly::zero();
+//@rw 1 /let mut degree_bound = None;/ => let mut degree_bound: Option<usize> = None;
+//@rw 1 /let mut hiding_bound = None;/ => let mut hiding_bound: Option<usize> = None;
+//@rw 1 /for \(coeff, label\) in([^{]*?)lc\.iter\(\)\.filter\(\|\(_, l\)\| (.*?)\)((?:\s|\d+)*)\{/ => for ct__ in\1lc.terms.iter()\3{ let coeff: &Fr = &ct__.0; let label: &LCTerm = &ct__.1; let l: &LCTerm = label; let ghost j = it2.index@; proof { assert(*ct__ == ts[j]); } if \2 {
+//@rw 1 /\.expect\("[^"]*"\)/ => .unwrap()
+//@rw 1 /(?s)let &\(cur_poly, cur_rand, cur_comm\) =\s*label_poly_map\.get\(label\)(.*?)\?;/ => let t3__: (&LabeledPolynomial, &St, &LabeledCommitment<Comm>) = *(tmap_get(&label_poly_map, label)\1?); let cur_poly = t3__.0; let cur_rand = t3__.1; let cur_comm = t3__.2;
+//@rw * /label\.to_string\(\)/ => string_to_string(label)
+//@rw 1 /core::cmp::max\(/ => opt_usize_max(
+//@rw 1 /(?s)Self::batch_open\(\s*ck,\s*lc_polynomials\.iter\(\),\s*lc_commitments\.iter\(\),\s*&query_set,\s*sponge,\s*lc_states\.iter\(\),\s*rng,\s*\)/ => pc_batch_open(ck, &lc_polynomials, &lc_commitments, query_set, sponge, &lc_states, rng)
+//@before /let lc_commitments = Self::construct_labeled_commitments\(/
+        let ghost lc_comms0 = lc_commitments@; let ghost lc_info0 = lc_info@;
+//@after start
+        let ghost ps0 = polynomials@; let ghost cs0 = commitments@; let ghost sts0 = states@; let ghost lcs0 = linear_combinations@;
+        let ghost s0 = sponge.st@; let ghost rin = rng_in(rng);
+//@loop 1 kw=for name=it
+            invariant it.index@ <= lcs0.len(), lc_info@.len() == it.index@, lc_commitments@.len() == need(lc_info@, it.index@), wf_pairs(ps0, cs0), lc_polynomials@.len() == it.index@, lc_states@.len() == it.index@,
+                sponge.st@ == s0, rng_in(rng) == rin, tmap_ok(label_poly_map@, ps0, sts0, cs0),
+                p_all_ok(label_poly_map@, lcs0, it.index@ as nat),
+                forall|q: int| 0 <= q < lc_info@.len() ==> lc_opened(label_poly_map@, #[trigger] lcs0[q], lc_polynomials@[q], lc_states@[q], outs(lc_info@, lc_commitments@)[q]),
+//@loopstart 1
+            let ghost i = it.index@;
+            let ghost ts = lc.terms@;
+            let ghost mm = label_poly_map@;
+            proof { assert(lc == lcs0[i]); }
+//@beforeloop 2
+            proof { }
+//@loop 2 kw=for name=it2
+                invariant it2.index@ <= ts.len(), ts == lc.terms@, lc == lcs0[i], num_polys == ts.len(), lc_label == lc.label, mm == label_poly_map@,
+                    p_ok(mm, ts, it2.index@ as nat),
+                    forall|x: FS| #[trigger] poly.ev(x) == p_ev(mm, ts, it2.index@ as nat, x),
+                    combined_rand@ == p_rand(mm, ts, it2.index@ as nat), fview(combined_shifted_rand) == p_srand(mm, ts, it2.index@ as nat), combined_comm@ == p_cm(mm, ts, it2.index@ as nat), gview(combined_shifted_comm) == p_scm(mm, ts, it2.index@ as nat),
+                    (degree_bound is Some) == (combined_shifted_comm is Some),
+                    degree_bound == p_db(mm, ts, it2.index@ as nat), hiding_bound == p_hb(mm, ts, it2.index@ as nat),
+//@before /let &\(cur_poly, cur_state, cur_comm\) =/
+                let ghost poly0 = poly;
+                proof {
+                    if !mm.dom().contains(label) {
+                        assert(!p_ok(mm, ts, (j + 1) as nat));
+                        lemma_p_ok_false(mm, ts, (j + 1) as nat, ts.len());
+                        lemma_p_all_false(mm, lcs0, (i + 1) as nat, lcs0.len());
+                    }
+                }
+//@before /if num_polys == 1 && cur_poly\.degree_bound\(\)\.is_some\(\) \{/
+                proof { let ti = lemma_tmap_entry(mm, ps0, sts0, cs0, label); assert((cur_poly.degree_bound is Some) == (cur_comm.commitment.shifted_comm is Some)); }
+//@before /return Err\((Self::)?Error::EquationHasDegreeBounds\(lc_label\)\);/
+                    proof {
+                        assert(!p_ok(mm, ts, (j + 1) as nat));
+                        lemma_p_ok_false(mm, ts, (j + 1) as nat, ts.len());
+                        lemma_p_all_false(mm, lcs0, (i + 1) as nat, lcs0.len());
+                    }
+//@after /combined_comm \+= &commitment\.comm\.mul\(\*coeff\);/
+                proof {
+                    assert forall|x: FS| #[trigger] poly.ev(x) == p_ev(mm, ts, (j + 1) as nat, x) by { assert(poly0.ev(x) == p_ev(mm, ts, j as nat, x)); }
+                }
+//@loopend 2
+                }
+                proof {
+                    match ts[j].1 { LCTerm::One => { assert(p_ok(mm, ts, (j + 1) as nat)); }, LCTerm::PolyLabel(l) => {} }
+                }
+//@afterloop 2
+            let ghost info0 = lc_info@; let ghost cms0 = lc_commitments@; let ghost lp0 = lc_polynomials@; let ghost ls0 = lc_states@;
+//@loopend 1
+            proof {
+                let info = lc_info@; let els = lc_commitments@; let x = (lc_label, degree_bound);
+                lemma_outs_push(info0, cms0, x, combined_comm, combined_shifted_comm, info, els);
+                assert forall|q: int| 0 <= q < lc_info@.len() implies lc_opened(mm, #[trigger] lcs0[q], lc_polynomials@[q], lc_states@[q], outs(info, els)[q]) by {
+                    if q < i {
+                        assert(lc_polynomials@[q] == lp0[q] && lc_states@[q] == ls0[q]);
+                        assert(outs(info, els)[q] == outs(info0, cms0)[q]);
+                        assert(lc_opened(mm, lcs0[q], lp0[q], ls0[q], outs(info0, cms0)[q]));
+                    }
+                }
+            }
+//@before /let proof = Self::batch_open\(/
+        proof {
+            assert(lcvs(lc_commitments@) =~= outs(lc_info0, lc_comms0));
+            assert forall|q: int| 0 <= q < lcs0.len() implies lc_opened(label_poly_map@, #[trigger] lcs0[q], lc_polynomials@[q], lc_states@[q], lcvs(lc_commitments@)[q]) by { }
         }
 //@end
 }
